@@ -4,10 +4,12 @@ import (
 	"fmt"
 	"go/token"
 	"go/types"
+	"strings"
 )
 
 // ghostFile is one entry of the ghost file system shared by os.* intrinsics and the
-// bbolt model. kind: 0 absent, 1 empty, 2 arbitrary bytes, 3 bbolt database.
+// bbolt model. kind: 0 absent, 1 empty, 2 arbitrary bytes, 3 bbolt database, 4 dangling
+// symbolic link, 5 directory.
 type ghostFile struct {
 	kind int
 	gen  int     // bumped on every mutation of the file's existence or content
@@ -33,6 +35,41 @@ func (m *Machine) ghost(path string) *ghostFile {
 		m.ghostFS[path] = g
 	}
 	return g
+}
+
+// touchParent: creating or removing an entry changes the directory that holds it (only
+// directories the harness made are tracked).
+func (m *Machine) touchParent(path string) {
+	if i := strings.LastIndexByte(path, '/'); i > 0 {
+		if pg := m.ghostFS[path[:i]]; pg != nil && pg.kind == 5 {
+			pg.gen++
+		}
+	}
+}
+
+// mkFileInfo builds the *os.fileStat the real os.Stat returns (name and mode filled in), so
+// that IsDir, Mode and Name run the library's own methods.
+func (m *Machine) mkFileInfo(path string, isDir bool) Value {
+	if m.P.byPath["os"] == nil || m.P.byPath["os"].Type("fileStat") == nil {
+		return Iface{t: types.Typ[types.String], v: MkStr("fileinfo:" + path)}
+	}
+	ft := m.P.namedType("os", "fileStat")
+	st := ft.Underlying().(*types.Struct)
+	s := zero(ft).(Struct)
+	for i := 0; i < st.NumFields(); i++ {
+		switch st.Field(i).Name() {
+		case "name":
+			s[i] = MkStr(path[strings.LastIndexByte(path, '/')+1:])
+		case "mode":
+			if isDir {
+				s[i] = K(32, 1<<31|0755)
+			} else {
+				s[i] = K(32, 0644)
+			}
+		}
+	}
+	var cell Value = s
+	return Iface{t: types.NewPointer(ft), v: &cell}
 }
 
 func (m *Machine) newFileValue(fr *frame, name string) Value {
@@ -145,7 +182,19 @@ func (m *Machine) osOpenFile(fr *frame, name Str, flag *Term) Value {
 		g.kind = 1
 		g.data = nil
 		g.gen++
+		m.touchParent(path)
 		m.fsLog = append(m.fsLog, "create "+path)
+		return Tuple{m.newFileValue(fr, path), Iface{}}
+	}
+	if g.kind == 5 {
+		// a directory: exclusive create finds the name taken, any other create or write
+		// access is refused, reading is allowed
+		if create && bit(oEXCL) {
+			return Tuple{nilFile, m.mkPathError("open", path, eEXIST)}
+		}
+		if create || bit(oWRONLY) || bit(oRDWR) {
+			return Tuple{nilFile, m.mkPathError("open", path, 21)}
+		}
 		return Tuple{m.newFileValue(fr, path), Iface{}}
 	}
 	// exists
@@ -199,8 +248,7 @@ func (p *Program) installOS() {
 			if g.kind == 0 || (follow && g.kind == 4) {
 				return Tuple{Iface{}, m.mkPathError(op, path, eNOENT)}
 			}
-			// a FileInfo the code under analysis only tests for nil-ness of the error
-			return Tuple{Iface{t: types.Typ[types.String], v: MkStr("fileinfo:" + path)}, Iface{}}
+			return Tuple{m.mkFileInfo(path, g.kind == 5), Iface{}}
 		}
 	}
 	in["os.Stat"] = statFn(true)
@@ -479,6 +527,11 @@ func (p *Program) installVerifModels() {
 	v["verifBoltWriteFault"] = func(fr *frame, a []Value) Value {
 		callModel(fr, "ModelCommitFault", a[0], a[1])
 		fr.m.noteOnce("environment: while switched on, every commit on the named database file fails with a write error and is rolled back")
+		return nil
+	}
+	v["verifBoltCloseFault"] = func(fr *frame, a []Value) Value {
+		callModel(fr, "ModelCloseFault", a[0])
+		fr.m.noteOnce("environment: the next Close of the named database file reports an unlock error although the file is released")
 		return nil
 	}
 	v["verifFlockHeld"] = func(fr *frame, a []Value) Value { return callModel(fr, "ModelFlockHeld", a[0]) }
